@@ -41,6 +41,8 @@ def explore(ctx):
                 lines.append(G.env_sweep("e%s%d" % (what[0], pos), pos, what))
         for k in range({"quick": 20, "thorough": 300, "search": 50}[tier]):
             lines.append(G.shutdown_then_command(rng, "z%d" % k))
+        for k in range({"quick": 6, "thorough": 60, "search": 12}[tier]):
+            lines.append(G.shutdown_during_backoff(rng, "b%d" % k))
         ops = ["dialok", "dialfail", "finalize", "close"]
         depth = {"quick": 5, "thorough": 7, "search": 6}[tier]
         k = 0
